@@ -212,9 +212,11 @@ class SupertrendRef:
                 dirs.append(("keep", pd))
         out = []
         for kind, d in dirs:
-            if kind != "keep":
-                out.append((d, up0, lo0))
+            if d != pd:
+                out.append((d, up0, lo0))  # a flip: both bands restart from the basic bands
                 continue
+            # direction unchanged - whether the close stayed inside the channel or ran beyond the band on the trend's own side: the
+            # band on the trailing side only ratchets ("bands that only ratchet in the trend direction")
             if d == 1:
                 k = lo0.cmp(pl)
                 if k <= 0:
